@@ -179,16 +179,22 @@ info('C12',
      ['grouped-site combinations and quadruples are sampled, not exhaustive'],
      [])
 info('C19',
-     'P: only the shared inverse_permutation contract (tools/misc.py; used by the ordering / index maps): result is the inverse '
-     'permutation for every n. '
+     'P: Lattice.mps2lat_idx and Lattice.lat2mps_idx, real source, bc_MPS finite / infinite / segment, dimension 1 and 2, any order: '
+     'for i == q*N_sites + r the result is order[r] with x_0 shifted by q*N_rings, and lat2mps_idx of exactly that row returns '
+     'q*N_sites + r (postcondition of the one = precondition of the other: the composition is the identity on every integer index); '
+     'order and the argument are not written to; uniqueness of division with remainder is proved in the same run (cvc5). The '
+     'shared inverse_permutation contract (tools/misc.py). '
      'B (bounded; exhaustive for the stated finite domain in the thorough tier): every lattice class, sizes up to 4x4, orderings '
      '(named and custom permutation), every open/periodic/shifted x finite/infinite combination, all displacement vectors up to the '
      'lattice size and all sublattice pairs: index maps mutually inverse and injective (infinite: on [-2N,3N) and periodic), '
      'mps2lat_values placement, possible_couplings equal to a brute-force enumeration over coordinate pairs, unit-cell assignment of '
      'boundary couplings; neighbour lists against Euclidean distances; irregular, multi-species (positions, pairs), helical lattices; '
      'mps2lat_values_masked for index sets left of / inside / right of the unit cell and every order.',
-     ['lattice index arithmetic as deductive obligations (numpy-heavy): not built - the finite domain named in the property is '
-      'enumerated instead', 'quick tier samples 40 displacement vectors per lattice and four orderings on sizes <= 3x2',
+     ['assumed, not proved: the representation invariant that the `order` setter establishes with np.lexsort (evaluated on real '
+      'lattices by the CPython cross-check); np.mod / np.sum / np.take / a[..., k] on 1-D rows; the composition mps2lat_idx(lat2mps_idx(x)) '
+      '== x follows by counting and is not a discharged obligation',
+      'possible_couplings, mps2lat_values(_masked), neighbour lists, derived lattice classes: not under contract - the finite domain '
+      'named in the property is enumerated instead', 'quick tier samples 40 displacement vectors per lattice and four orderings on sizes <= 3x2',
       'known findings F-15 (open x with shifted y, |dx0| >= Lx), F-35 (NLegLadder nearest_neighbors)'],
      [])
 info('C15',
